@@ -1,4 +1,5 @@
 import RulioProofs.SysCover
+import RulioProofs.CloseSys
 
 open AM
 
@@ -224,3 +225,65 @@ theorem visits_exactly_ancestors_quiet {α} {now : Int} {fn : String → LM α} 
 /-- non-vacuity: the diamond system is quiet for a state-preserving `fn` (no `!parents` fact is expired) -/
 example (k : Kind) : QuietWalk (exDiamond k) 3 (fun _ => (LM.pure () : LM Unit)) :=
   ⟨fun _ _ _ => rfl, quietReadB_sound (by cases k <;> decide +kernel)⟩
+
+
+/-! ## closing `ancestors_never_diverge_partial` (composition with the error-class induction of
+`RulioProofs/CloseDiverge.lean`) -/
+
+/-- **no_state_or_location_function_diverges** — the error-class induction: no operation of either `State`
+implementation (`Add`, `Rem`, `Get`, `Search`, `FindRules`, `reload`; all their errors are literals such as
+`notFound`, `badExpires`, `fuel`, `noTerms`, `lostRule`, `expired`, …, or mapped index / matcher errors) and no
+single-location method used by the ancestor walk (`getParents`, `searchFacts`, `searchRules`, and the guards they run)
+ever answers the literal error `"diverge"` — in any state whatsoever, reachable or not. The State recursion budget
+error is the distinct literal `"fuel"`; it is excluded for reachable states by C08 `cascade_terminates`, and is
+irrelevant here. `"diverge"` is produced by `doAncestors` on fuel exhaustion only. -/
+theorem no_state_or_location_function_diverges (s : St) (l : Loc) (c : Ctx) (id : String) (x p : Obj) (now : Int) :
+    (s.add id x now).2 ≠ .error "diverge" ∧ (s.rem id now).2 ≠ .error "diverge" ∧
+    (s.get id now).2 ≠ .error "diverge" ∧ (s.search p now).2 ≠ .error "diverge" ∧
+    (s.findRules p now).2 ≠ .error "diverge" ∧ s.reload now ≠ .error "diverge" ∧
+    (locGetParentsRaw now l).2 ≠ .error "diverge" ∧ (locSearchFacts c p now l).2 ≠ .error "diverge" ∧
+    (locSearchRules c p now l).2 ≠ .error "diverge" :=
+  ⟨(St.add_nd s id x now).ne, (St.rem_nd s id now).ne, (St.get_nd s id now).ne, (St.search_nd s p now).ne,
+   (St.findRules_nd s p now).ne, (St.reload_nd s now).ne, (locGetParentsRaw_nd now l).ne,
+   (locSearchFacts_nd c p now l).ne, (locSearchRules_nd c p now l).ne⟩
+
+/-- **ancestors_never_diverge** — `ancestors_never_diverge_partial` without its hypothesis on the parent read: for
+every well-formed system (unique names; the locations' states are arbitrary), every start `n`, and every
+name-preserving `fn` that does not itself answer `"diverge"` (`LM.NoDiv`; true of every model method, see
+`RulioProofs/CloseDiverge.lean`), the ancestor walk at the model's own budget `ancestorFuel sys` never answers
+`"diverge"`: a parent chain that loops back is reported as `loop` (`loop_reported`), never by exhausting the stack. -/
+theorem ancestors_never_diverge {α} {now : Int} {fn : String → LM α} (hfn : ∀ n, (fn n).KeepsName)
+    (hnd : ∀ n, (fn n).NoDiv) {sys : Sys} (wf : SysWF sys) (n : String) (acc : List α) :
+    (doAncestors (ancestorFuel sys) sys n now fn acc).2 ≠ .error "diverge" :=
+  doAncestors_nd hfn hnd wf n acc
+
+/-- **inherited_searches_never_diverge** — hence, for every well-formed system and every caller, location, pattern /
+event, flag and time, none of the four system-level entry points built on the walk — `SearchFacts` (inherited or not),
+`searchRulesAncestors`, `SearchRules`, `ListRules` — returns `"diverge"`. No hypothesis is left. -/
+theorem inherited_searches_never_diverge {sys : Sys} (wf : SysWF sys) (c : Ctx) (n : String) (p : Obj) (inh : Bool)
+    (now : Int) :
+    (sysSearchFacts sys c n p inh now).2 ≠ .error "diverge" ∧
+    (sysSearchRulesAnc sys c n p now).2 ≠ .error "diverge" ∧
+    (sysSearchRules sys c n p inh now).2 ≠ .error "diverge" ∧
+    (sysListRules sys c n inh now).2 ≠ .error "diverge" :=
+  ⟨sysSearchFacts_nd wf c n p inh now, sysSearchRulesAnc_nd wf c n p now, sysSearchRules_nd wf c n p inh now,
+   sysListRules_nd sys c n inh now⟩
+
+/-- non-vacuity: the looping system `a → b → a` is well-formed, so the theorem applies to it (its inherited search
+answers `loop`, see above) … -/
+example (k : Kind) : SysWF (exIndirectLoop k) ∧
+    (sysSearchFacts (exIndirectLoop k) {} "a" [("x", .str "?v")] true 7).2 ≠ .error "diverge" :=
+  have wf : SysWF (exIndirectLoop k) := Sys.at_wf (Sys.at_wf (sysFresh_ab_wf k) _ _) _ _
+  ⟨wf, (inherited_searches_never_diverge wf {} "a" _ true 7).1⟩
+
+/-- … and so is the loop-free diamond with the extra child `z`: all four entry points, at any location of it -/
+example (k : Kind) (n : String) (p : Obj) (inh : Bool) : SysWF (exDiamond k) ∧
+    (sysSearchRules (exDiamond k) {} n p inh 3).2 ≠ .error "diverge" ∧
+    (sysListRules (exDiamond k) {} n inh 3).2 ≠ .error "diverge" :=
+  have wf0 : SysWF (Sys.fresh k ["a", "b", "c", "d", "z"]) :=
+    ⟨by simp [Sys.fresh, Sys.keys], by
+      intro k l h; simp [Sys.fresh] at h
+      rcases h with ⟨rfl, rfl⟩ | ⟨rfl, rfl⟩ | ⟨rfl, rfl⟩ | ⟨rfl, rfl⟩ | ⟨rfl, rfl⟩ <;> rfl⟩
+  have wf : SysWF (exDiamond k) := Sys.at_wf (Sys.at_wf (Sys.at_wf (Sys.at_wf wf0 _ _) _ _) _ _) _ _
+  have h := inherited_searches_never_diverge wf {} n p inh 3
+  ⟨wf, h.2.2.1, h.2.2.2⟩
